@@ -38,7 +38,7 @@ class BasicAuthRequestScheme(object):
 		password = authinfo['password']
 		#username = username.encode('ISO8859-1')
 		#password = password.encode('ISO8859-1')
-		return encode_base64(b'%s:%s' % (username, password)).strip()
+		return encode_base64(b'%s:%s' % (username, password)).replace(b'\n', b'')
 
 
 class BasicAuthResponseScheme(object):
